@@ -10,6 +10,8 @@ Decided statically: no block reader can observe anything left behind by an earli
   R-CURSOR-LOCAL     readers touch the FileWrapper only through its methods; `set_pos` is only given
                      a value obtained from `get_pos` in the same activation.
   R-DISPATCH-RESTART the scan over token types restarts from the first type for every block.
+  R-HANDOFF          (shared with C11 D-HANDOFF) the span-level buffer handed from the core-token scan to
+                     InlineCode.find is emptied before it is filled on every path of a new inline scan.
 """
 
 import ast
@@ -274,4 +276,8 @@ def run(ctx):
     rule_no_reentry(ctx, rep)
     rule_cursor_local(ctx, rep)
     rule_dispatch_restart(ctx, rep)
+    # inline content of one block must not see what the inline scan of an earlier block left behind:
+    # the span-level hand-off buffer discipline is shared with C11
+    from . import c11
+    c11.rule_handoff(ctx, rep, rule='R-HANDOFF')
     rep.assume('block tokens follow the start/read protocol driven by block_tokenizer.tokenize_block')
